@@ -26,6 +26,9 @@ FS_FAULTS = {
     "dot-fifo": ".fifo",
     "dot-socket": ".socket",
     "dot-symlink-loop": ".loop",
+    # dot-names that also hold '..' (what atomic-update tools leave: '..data', '..2024_10_04'): regular files
+    "dot-name-leading-dotdot": "..data",
+    "dot-name-inner-dotdot": ".old..sock",
     # names that mean something to %-formatting, str.format, shells and globbing: the unservable
     # entry's name travels through error messages and log lines
     "percent-dangling-symlink": "50% off",
@@ -44,7 +47,7 @@ SIDECAR_FAULTS = {"sidecar-socket": ("socket", ".abstract"), "sidecar-dir": ("di
                   "capfile-loop": ("symlink-loop", "cap:")}
 # names that one of the handlers claims by pattern: appended to the faulty entry's name
 SUFFIXES = ["", ".gophermap", ".zip", ".mbox", ".pyg", ".html", ".html.tal", ".txt.gz"]
-INJECTED = ["vanished-after-enumeration", "stat-ENOENT", "stat-EACCES"]
+INJECTED = ["vanished-after-enumeration", "stat-ENOENT", "stat-EACCES", "vanishes-after-stat", "open-EACCES", "open-EIO"]
 HEALTHY = ["alpha.txt", "beta.html", "gamma", "delta.gif", "epsilon.txt", "zeta", "eta.txt", "theta.pdf"]
 
 
@@ -106,13 +109,34 @@ class Injector:
         self.real_listdir, self.real_stat = os.listdir, os.stat
         self.phantoms: typing.Dict[bytes, typing.List[bytes]] = {}
         self.stat_errors: typing.Dict[bytes, int] = {}
+        self.vanish_after_stat: typing.Set[bytes] = set()
+        self.open_errors: typing.Dict[bytes, int] = {}
         self.hits = 0
 
     def install(self):
+        from pygopherd.handlers import base as basemod
         os.listdir, os.stat = self.listdir, self.stat
+        if self.open_errors:
+            basemod.open = self.open
 
     def remove(self):
+        from pygopherd.handlers import base as basemod
         os.listdir, os.stat = self.real_listdir, self.real_stat
+        try:
+            del basemod.open
+        except AttributeError:
+            pass
+
+    def open(self, path, *a, **kw):
+        try:
+            p = os.fsencode(path)
+        except TypeError:
+            return open(path, *a, **kw)
+        if p in self.open_errors:
+            self.hits += 1
+            e = self.open_errors[p]
+            raise OSError(e, os.strerror(e), os.fsdecode(p))
+        return open(path, *a, **kw)
 
     def listdir(self, path="."):
         res = self.real_listdir(path)
@@ -133,7 +157,16 @@ class Injector:
             self.hits += 1
             e = self.stat_errors[p]
             raise OSError(e, os.strerror(e), os.fsdecode(p))
-        return self.real_stat(path, *a, **kw)
+        res = self.real_stat(path, *a, **kw)
+        if p in self.vanish_after_stat:
+            # inspected successfully -- and gone the moment anybody tries to open it
+            self.hits += 1
+            self.vanish_after_stat.discard(p)
+            try:
+                os.unlink(p)
+            except OSError:
+                pass
+        return res
 
 
 def listing_entries(chk, site, view, sel):
@@ -160,6 +193,14 @@ def run_case(chk: Check, sc: Scratch, idx: int, handlers, hl_name: str, nhealthy
         elif kind == "vanished-after-enumeration":
             n = pos + "phantom" + (suffix or ".txt")
             inj.phantoms.setdefault(dfs, []).append(n.encode())
+            faulty_names.append(n)
+        elif kind in ("vanishes-after-stat", "open-EACCES", "open-EIO"):
+            n = pos + "unopenable" + (suffix or ".txt")
+            t.file(n, "From time to time a file is there for stat() and not for open()\n")
+            if kind == "vanishes-after-stat":
+                inj.vanish_after_stat.add(os.path.join(dfs, n.encode()))
+            else:
+                inj.open_errors[os.path.join(dfs, n.encode())] = errno.EACCES if kind == "open-EACCES" else errno.EIO
             faulty_names.append(n)
         else:
             n = pos + "unstatable" + (suffix or ".txt")
@@ -214,7 +255,9 @@ def run_case(chk: Check, sc: Scratch, idx: int, handlers, hl_name: str, nhealthy
                 chk.witness("C12/healthy-entries-%s:%s" % ("missing" if missing else "changed", kinds),
                             dict(sample, missing=missing[:3], got=got[:4], want=refs[view][:4]))
                 return
-        if (inj.phantoms or inj.stat_errors) and inj.hits == 0:
+        if inj.open_errors and inj.hits == 0:
+            chk.count("open_faults_on_entries_nobody_opens")    # e.g. a .txt file: listed without being read
+        if (inj.phantoms or inj.stat_errors or inj.vanish_after_stat) and inj.hits == 0:
             chk.note_inconclusive("fault injection hooks were never reached")
         chk.case((hl_name, kinds, tuple(p for _, p in faults), nhealthy, bool(depth)),
                  {"handler": hl_name, "dir": sel, "faults": faults, "healthy": nhealthy, "views": len(VIEWS), "linkfile": linkmode}
